@@ -32,6 +32,7 @@ func init() {
 		},
 		Real:       append(append([]string{}, realAll...), "db/fs (compiled against the simulated os)"),
 		Stub:       append(append([]string{}, stubAll...), "OS filesystem (simfs)"),
+		HangSeconds: 120, // single runs of this check take seconds, more on a loaded machine
 		FaultKinds: []string{"fs_crash_point:create", "fs_crash_point:truncate", "fs_crash_point:write", "fs_crash_point:close", "fs_crash_point:rename", "fs_crash_point:remove", "fs_crash_point:sync", "restart"},
 		Post: func(cov map[string]interface{}) {
 			cov["exhaustive_note"] = "per save: all micro-steps and the stated byte offsets are enumerated; histories are sampled"
@@ -211,6 +212,7 @@ func runC12(c *core.Ctx) *core.Outcome {
 		// 3. crash points
 		type point struct{ step, off int }
 		var pts []point
+		renamed, written := "", ""
 		stepIdx := 0
 		for _, e := range log {
 			if e.Kind == "put-begin" || e.Kind == "put-end" {
@@ -227,13 +229,23 @@ func runC12(c *core.Ctx) *core.Outcome {
 				}
 			}
 			o.Faults["fs_crash_point:"+e.Kind]++
+			switch e.Kind {
+			case "rename":
+				renamed = e.Path
+			case "write", "create", "truncate":
+				written = e.Path
+			}
 		}
 		oldExisted := false
-		recName := ""
-		for name := range files1 {
-			if _, ok := files0[name]; !ok || !bytes.Equal(files0[name], files1[name]) {
-				recName = name
-			}
+		// the record being saved: what the save renames into place, else what it writes (named by the file
+		// system calls, not by comparing bytes - a save of unchanged content may or may not produce the same
+		// bytes, the encoder writes Go maps in iteration order)
+		recName := renamed
+		if recName == "" {
+			recName = written
+		}
+		if _, ok := files1[recName]; !ok {
+			recName = ""
 		}
 		if recName != "" {
 			_, oldExisted = files0[recName]
@@ -241,7 +253,9 @@ func runC12(c *core.Ctx) *core.Outcome {
 		if oldExisted && len(pts) >= 20 {
 			replaced++
 		}
-		o.States = append(o.States, h64(h64(string(files0[recName])), h64(string(files1[recName]))))
+		// the record as decoded: its bytes depend on the iteration order of Go maps in the encoder
+		o.States = append(o.States, h64(recordKey(files0[recName]), recordKey(files1[recName])))
+
 		type contRes struct {
 			st    *world.Step
 			files map[string][]byte
@@ -461,4 +475,16 @@ func sameRecord(a, b []byte) bool {
 		return bytes.Equal(a, b)
 	}
 	return snapKey(sa, ca) == snapKey(sb, cb)
+}
+
+// recordKey is a canonical rendering of a stored session record (for the distinct-states measure).
+func recordKey(b []byte) string {
+	if len(b) == 0 {
+		return "<none>"
+	}
+	st, ca, pm, _, err := restore(b)
+	if pm != "" || err != nil {
+		return fmt.Sprintf("<undecodable %d bytes>", len(b))
+	}
+	return snapKey(st, ca)
 }
